@@ -715,6 +715,38 @@ func (e *nilEngine) refine(cond ssa.Value, val bool, st fstate, at ssa.Instructi
 				st["TAOK:"+vid(t)] = nil
 			}
 		}
+		// (value, ok) helper of the module: in every tuple it returns, ok is the constant false or the value is
+		// visibly non-nil (an address) -- so ok == true establishes the value
+		if call, isCall := x.Tuple.(*ssa.Call); isCall && val && call.Referrers() != nil {
+			if cal := call.Call.StaticCallee(); cal != nil && !call.Call.IsInvoke() && e.p.isModuleFn(cal) && len(cal.Blocks) > 0 {
+				for _, r := range *call.Referrers() {
+					ex, isEx := r.(*ssa.Extract)
+					if !isEx || ex.Index == x.Index || !isNillable(ex.Type()) {
+						continue
+					}
+					all := true
+					tuples := returnedTuples(cal)
+					for _, tup := range tuples {
+						if x.Index >= len(tup) || ex.Index >= len(tup) {
+							all = false
+							break
+						}
+						if k, isC := tup[x.Index].(*ssa.Const); isC {
+							if bv, isB := constBool(k); isB && !bv {
+								continue
+							}
+						}
+						if !addressValue(tup[ex.Index], 0) {
+							all = false
+							break
+						}
+					}
+					if all && len(tuples) > 0 {
+						e.assumeNonNil(ex, st)
+					}
+				}
+			}
+		}
 	case *ssa.Call:
 		if !val {
 			return
@@ -1117,6 +1149,27 @@ func hasDelete(fn *ssa.Function, m ssa.Value) bool {
 				return true
 			}
 		}
+	}
+	return false
+}
+
+// addressValue: v is visibly an address (of a variable, element or field), through phis and conversions.
+func addressValue(v ssa.Value, d int) bool {
+	if d > 6 {
+		return false
+	}
+	switch x := v.(type) {
+	case *ssa.Alloc, *ssa.IndexAddr, *ssa.FieldAddr, *ssa.Global, *ssa.MakeMap, *ssa.MakeSlice, *ssa.MakeClosure, *ssa.Function:
+		return true
+	case *ssa.ChangeType:
+		return addressValue(x.X, d+1)
+	case *ssa.Phi:
+		for _, ed := range x.Edges {
+			if !addressValue(ed, d+1) {
+				return false
+			}
+		}
+		return len(x.Edges) > 0
 	}
 	return false
 }
